@@ -2,5 +2,5 @@ CONSTANTS Max = 4  Walk = FALSE  WalkLen = 0  ProbeTicks = 9
 CONSTANT Pairs <- PairsBig
 INIT Init
 NEXT Next
-VIEW View
+VIEW ViewM
 INVARIANTS InvPool InvFire InvSchedule InvCreate
